@@ -969,7 +969,24 @@ def build_reachability_bitmap(
     Returns:
         EWAH bitmap with bits set for reachable objects
     """
+    return _build_reachability_bitmap(commit_sha, sha_to_pos, object_store)[0]
+
+
+def _build_reachability_bitmap(
+    commit_sha: ObjectID,
+    sha_to_pos: dict[RawObjectID, int],
+    object_store: "BaseObjectStore",
+) -> tuple[EWAHBitmap, bool]:
+    """Build a reachability bitmap for a commit.
+
+    Returns:
+        Tuple of the bitmap and whether it is complete, i.e. whether every
+        reachable object that is in the store is also in the pack. A bitmap can
+        only name objects of its own pack, so an incomplete one understates
+        what is reachable.
+    """
     bitmap = EWAHBitmap()
+    complete = True
 
     # Traverse all objects reachable from the commit
     seen = set()
@@ -984,7 +1001,8 @@ def build_reachability_bitmap(
         # Add this object to the bitmap if it's in the pack
         # Convert hex SHA to binary for pack index lookup
         raw_sha = hex_to_sha(sha)
-        if raw_sha in sha_to_pos:
+        in_pack = raw_sha in sha_to_pos
+        if in_pack:
             bitmap.add(sha_to_pos[raw_sha])
 
         # Get the object and traverse its references
@@ -1003,7 +1021,11 @@ def build_reachability_bitmap(
             # Object not in store, skip it
             continue
 
-    return bitmap
+        if not in_pack:
+            # Reachable and present, but stored outside this pack
+            complete = False
+
+    return bitmap, complete
 
 
 def apply_xor_compression(
@@ -1188,7 +1210,13 @@ def generate_bitmap(
         if progress and i % 10 == 0:
             progress(f"Building bitmap {i + 1}/{len(selected_commits)}")
 
-        bitmap = build_reachability_bitmap(commit_sha, sha_to_pos, object_store)
+        bitmap, complete = _build_reachability_bitmap(
+            commit_sha, sha_to_pos, object_store
+        )
+        if not complete:
+            # The pack is not closed under reachability from this commit, so
+            # a bitmap would make its history look shorter than it is.
+            continue
         commit_bitmaps.append((commit_sha, bitmap))
 
     if progress:
